@@ -77,7 +77,9 @@ Inductive tinput :=
 | IMz (len_in : snum) (given : option limbs) (toks : list rtok)   (* MerklizerFromBytes *)
 | IEntry (toks : list rtok)                  (* RDFEntry.UnmarshalBinary *)
 | ITail (es : list rwentry) (compact_ok : bool)   (* MerklizeJSONLD after EntriesFromRDF *)
-| IHash (dt : string) (v : raw_goval).       (* merklize.HashValue *)
+| IHash (dt : string) (v : raw_goval)        (* merklize.HashValue *)
+| IPath (l : list rpart)                     (* Path.MtEntry / Merklizer.Entry / Proof on a caller-supplied path *)
+| IEntryKV (toks : list rtok).               (* RDFEntry.UnmarshalBinary ; KeyValueMtEntries *)
 
 Definition code {A} (r : res A) : int :=
   match r with
@@ -108,6 +110,16 @@ Definition run_input (P : prim) (F : floats) (i : tinput) : int :=
   | IHash dt v =>
       match hash_value g P F dt (goval_of v) with
       | Ok None => 4%uint63
+      | r => code r
+      end
+  | IPath l =>
+      match path_mt_entry g P (map wpart_of l) with
+      | Ok None => 4%uint63
+      | r => code r
+      end
+  | IEntryKV toks =>
+      match rdfentry_key_value g P (map tok_of toks) with
+      | Ok (None, _) | Ok (_, None) => 4%uint63
       | r => code r
       end
   end.
